@@ -526,9 +526,11 @@ func (s *server) references() error {
 				}
 				return
 			}
+			n0 := len(w.Insts)
 			ctor.Run(w)
-			i := w.Insts[len(w.Insts)-1]
-			s.refs[i.Ref] = w.Behaviour(i)
+			for _, i := range w.Insts[n0:] { // a constructor operation may create several instances (provider + LegacyServer over it)
+				s.refs[i.Ref] = w.Behaviour(i)
+			}
 		})
 		if pn != "" {
 			err = fmt.Errorf("reference for %v: %s", ctor, pn)
